@@ -82,7 +82,7 @@ PATTERNS = [
     (r"ShroudStrCopy\(" + V + r", " + ELEM + r", \{nullptr\}, 0\);", 15, [1, "ELEMLEN"]),
     (r"(?:\{c_const\})?std::string " + V + r"\(" + V + r", " + V + r"\);", 16, [1, 2, 3]),
     (r"(?:\{c_const\})?std::string " + V + r";", 17, [1]),
-    (r"\{c_const\}std::string " + V + r"\(" + V + r"\);", 18, [1, 2]),
+    (r"(?:\{c_const\})?std::string " + V + r"\(" + V + r"\);", 18, [1, 2]),
     (r"\{stdlib\}memset\(" + V + r", ' ', " + V + r"\);", 19, [1, 2]),
     (r"\{stdlib\}memset\(" + V + r", ' ', " + ELEM + r"\);", 19, [1, "ELEMLEN"]),
     (V + r"\[0\] = " + V + r";", 20, [1, 2]),
